@@ -207,6 +207,43 @@ def run(chk):
                 chk.ob("C16-D5.fourier", fn.name, "imaginary block offset == num_points x num_outputs", ok, fn.loc(d), detail or ("offset %s, stride %s" % (src[:40], stride)))
     chk.floor("C16-D5.fourier", nfc, 1, "consumers of Fourier coefficient blocks")
 
+    # ------------------------------------------------------------------ D6 modes
+    chk.rule("C16-D6.modes", "a mode of the library that rejects other commands while it is active and that the tool can enter (dynamic construction: beginConstruction) can also be left "
+                             "through the tool without destroying the grid (finishConstruction is called by some command handler)")
+    wrapfns = [f for f in db.all_functions(["Tasgrid/tasgridWrapper.cpp"]) if f.cls == "TasgridWrapper"]
+    opens = [(f, c) for f in wrapfns for c in f.calls() if (callee(c) or "").endswith("TasmanianSparseGrid::beginConstruction")]
+    closes = [(f, c) for f in wrapfns for c in f.calls() if (callee(c) or "").endswith("TasmanianSparseGrid::finishConstruction")]
+    if not opens:
+        raise AnalysisBroken("the wrapper no longer enters dynamic construction: re-derive C16-D6")
+    for f, c in opens[:1]:
+        chk.saw(f)
+    chk.ob("C16-D6.modes", "TasgridWrapper", "construction mode entered at %d site(s) can be left" % len(opens), bool(closes), opens[0][0].loc(opens[0][1]),
+           "finishConstruction called in %s" % sorted({short(f.name) for f, c in closes}) if closes else
+           "no command handler calls finishConstruction: after -getconstructpnts the grid rejects refinement commands until it is re-made",
+           "at least one handler ends the construction")
+
+    # ------------------------------------------------------------------ D7 precision of numeric options
+    chk.rule("C16-D7.precision", "a numeric option that the wrapper stores as double is parsed in double precision: no argument of a double-typed wrapper setter is a float-typed "
+                                 "expression (std::stof): the tool would otherwise build a grid for a neighbouring parameter value")
+    nprec = 0
+    for f in db.all_functions(["Tasgrid/tasgrid_main.cpp", "Tasgrid/tasgridWrapper.cpp"]):
+        for c in f.calls():
+            cal = callee(c) or ""
+            if not cal.startswith(WR + "::set"):
+                continue
+            t = db.resolve(c)
+            if t is None:
+                continue
+            for prm, a in zip(t.params(), call_args(c)):
+                if prm["t"].strip() != "double":
+                    continue
+                nprec += 1
+                chk.saw(f)
+                narrow = [x for x in walk(a) if (x.get("t") == "float") or (callee(x) or "") in ("std::stof", "std::strtof", "atof") and x.get("t") == "float"]
+                chk.ob("C16-D7.precision", f.key, "%s(%s)" % (short(cal), txt(strip(a))[:30]), not narrow, f.loc(c),
+                       "the value passes through a float (`%s`) before it is stored as double" % txt(narrow[0])[:40] if narrow else "", "double precision all the way")
+    chk.floor("C16-D7.precision", nprec, 4, "double-typed options set from the command line")
+
     return ("Static rule discharge on the tasgrid wrapper: command table coverage and uniqueness, dead alternatives and family predicates of the make dispatch, agreement of the tool's "
             "argument checks with the library's, sibling agreement of the output mapping and of the Fourier coefficient layout. The equivalence of outputs of command scripts with API "
             "call sequences needs execution and is not decided; these are necessary structural conditions only.")
